@@ -184,6 +184,13 @@ func (sms *sqlMetadataStore) AppendObject(ctx context.Context, tx *sql.Tx, bucke
 		return nil, err
 	}
 
+	// Only the null version may be extended in place; a real version (written
+	// while versioning was enabled) is immutable, so the append is stored as a
+	// new null version next to it.
+	if oldObjectEntity != nil && oldObjectEntity.VersionID != nil && *oldObjectEntity.VersionID != "null" {
+		return sms.PutObject(ctx, tx, bucketName, obj, nil)
+	}
+
 	if oldObjectEntity != nil {
 		existingParts, err := sms.partRepository.FindPartsByObjectIdOrderBySequenceNumberAsc(ctx, tx, *oldObjectEntity.Id)
 		if err != nil {
